@@ -359,7 +359,7 @@ func (l *lagMonitor) Stop() time.Duration {
 // rotation tick of the connection, batch A is handed off, the tick passes, batch B is handed off, and the
 // endpoint resets the connection: nothing of A or B was received, all of it is younger than one period, all of
 // it must be replayed to the next incarnation.
-func rotationCase(res *mon.Result, idx int, dir string) {
+func rotationCase(res *mon.Result, idx int, dir string, attempt int) (bracketed bool) {
 	r := mon.NewRng(mon.Seed(), 71, uint64(idx))
 	os.RemoveAll(dir)
 	os.MkdirAll(dir, 0755)
@@ -367,7 +367,7 @@ func rotationCase(res *mon.Result, idx int, dir string) {
 	ep := mon.NewEndpoint(mon.Mode{Abortive: true})
 	defer ep.Close()
 	t := mon.NewTable("none", "none", false, dir)
-	key := fmt.Sprintf("c07rot%ds%d", idx, mon.Seed())
+	key := fmt.Sprintf("c07rot%da%ds%d", idx, attempt, mon.Seed())
 	cmd := fmt.Sprintf("addRoute sendAllMatch %s  %s spool=true flush=%d reconn=%d connbuf=%d iobuf=%d spoolbuf=1000 spoolsyncevery=1000 spoolsyncperiod=200 spoolsleep=0 unspoolsleep=0",
 		key, ep.Addr, r.PickInt([]int{5, 20}), r.PickInt([]int{50, 200}), r.PickInt([]int{1000, 30000}), r.PickInt([]int{256, 4096, 2000000}))
 	nA := r.Range(50, 600)
@@ -379,7 +379,7 @@ func rotationCase(res *mon.Result, idx int, dir string) {
 	if err := mon.Apply(t, cmd); err != nil {
 		lag.Stop()
 		res.Violate("harness-setup", err.Error(), w)
-		return
+		return true
 	}
 	rt := t.GetRoute(key)
 	dest, _ := rt.GetDestination(0)
@@ -396,10 +396,17 @@ func rotationCase(res *mon.Result, idx int, dir string) {
 	prefix := fmt.Sprintf("c07rot.%d.", idx)
 	online := mon.ProbeOnline(rt.Dispatch, ep, fmt.Sprintf("c07rot%d", idx), 600)
 	tOn := time.Now()
-	if !online || tOn.Sub(tUp) > 1200*time.Millisecond {
+	if cs := ep.Conns(); len(cs) > 0 && cs[0].At.Before(tOn) {
+		// the connection object (and its keep-safe ticker) exists once the dial returned, which is before the endpoint
+		// saw the connection in its accept loop
+		tOn = cs[0].At
+	}
+	if !online || tOn.Sub(tUp) > 1200*time.Millisecond || time.Since(tUp) > keepPeriod-500*time.Millisecond {
 		lag.Stop()
-		res.Inconclusive(fmt.Sprintf("rotationCase %d: the destination took %v to come online; the first rotation tick cannot be bracketed", idx, tOn.Sub(tUp)))
-		return
+		if attempt >= 2 {
+			res.Inconclusive(fmt.Sprintf("rotationCase %d: the destination took %v to come online (third attempt); the first rotation tick cannot be bracketed", idx, tOn.Sub(tUp)))
+		}
+		return false
 	}
 	// the connection (and its keep-safe ticker) was created between tUp and tOn: its first tick falls in [tUp+P, tOn+P]
 	var seq int64
@@ -486,7 +493,7 @@ func rotationCase(res *mon.Result, idx int, dir string) {
 		msg := fmt.Sprintf("in-flight lines straddling a keep-safe rotation: %d lines handed off before and %d after the connection's first rotation tick, none read by the endpoint, connection reset %v after the first of them: %d were never replayed, slow drops %d", nA, nB, tKill.Sub(tUp.Add(keepPeriod-400*time.Millisecond)).Round(time.Millisecond), missing, slow)
 		if worst > maxLag || collected == 0 || time.Unix(0, collected).After(tUp.Add(2*keepPeriod-200*time.Millisecond)) {
 			res.Inconclusive(fmt.Sprintf("rotationCase %d: %s - but worst scheduling lag was %v and the redo was collected %v after the route was created (period %v): the time-based retention cannot be assumed", idx, msg, worst, time.Unix(0, collected).Sub(tUp), keepPeriod))
-			return
+			return true
 		}
 		rotDecided++
 		res.Violate("lost-uncounted-across-rotation", msg, w)
@@ -496,6 +503,7 @@ func rotationCase(res *mon.Result, idx int, dir string) {
 		rotDecided++
 		res.NonTrivial(fmt.Sprintf("rotation/%d/%d/%d", idx, nA, nB))
 	}
+	return true
 }
 
 // collector accumulates the set of ids of complete, well-formed lines over all
@@ -587,7 +595,11 @@ func main() {
 		if o := os.Getenv("VERIF_ONLY"); o != "" && o != fmt.Sprintf("rot%d", i) {
 			continue
 		}
-		rotationCase(res, i, filepath.Join(base, fmt.Sprintf("rot%d", i)))
+		for attempt := 0; attempt < 3; attempt++ {
+			if rotationCase(res, i, filepath.Join(base, fmt.Sprintf("rot%d", i)), attempt) {
+				break
+			}
+		}
 		res.Eval(1)
 		rotMine++
 	}
